@@ -47,7 +47,11 @@ func TestC10(t *testing.T) {
 	}
 	runProperty(t, "C10",
 		func(rt *rapid.T) *vcase.Case {
-			c := vcase.GenCase(rt, p, "C10")
+			pp := p
+			if rapid.Bool().Draw(rt, "tag-heavy?") {
+				pp.TagHeavy = true // trees of tags, tags inside one-of options
+			}
+			c := vcase.GenCase(rt, pp, "C10")
 			if c.Extra == nil {
 				c.Extra = map[string]any{}
 			}
